@@ -77,20 +77,6 @@ static void scan_cont(const cm::Container &c, Scan &sc, int depth) {
     for (auto &f : c.frames) scan_cont(f, sc, depth + 1);
 }
 
-static std::string run_case(const CaseFile &c);
-// F-TABLE-WRAP confirmation: the same document with every table rewritten as the list [key value key value ...] (same tokens, but free
-// to wrap anywhere) writes and round-trips; then a cif_write failure of the original is the table-entry layout defect and nothing else
-static bool detabled_ok(const cm::Doc &d, const CaseFile &c) {
-    std::function<void(cm::Value &)> detable = [&](cm::Value &v) {
-        if (v.k == cm::Value::TABLE) { std::vector<cm::Value> e; for (auto &kv : v.entries) { e.push_back(cm::Value::chr(kv.first, true)); e.push_back(kv.second); } v = cm::Value::list(e); }
-        if (v.k == cm::Value::LIST) for (auto &x : v.elems) detable(x);
-    };
-    std::function<void(cm::Container &)> walk = [&](cm::Container &k) { for (auto &l : k.loops) for (auto &r : l.rows) for (auto &v : r) detable(v); for (auto &f : k.frames) walk(f); };
-    cm::Doc d2 = d; for (auto &b : d2.blocks) walk(b);
-    CaseFile c3 = c; c3.set("doc", cm::ser_plain(d2)); c3.seti("strict", 1);
-    return run_case(c3).empty();
-}
-
 static std::string run_case(const CaseFile &c) {
     cm::Doc d;
     if (!cm::parse_doc(c.get("doc"), d)) return "bad case file (doc)";
@@ -117,10 +103,7 @@ static std::string run_case(const CaseFile &c) {
         if (const char *dp = getenv("VERIF_DUMP_OUTPUT")) { FILE *df = fopen(dp, "wb"); if (df) { fwrite(bytes.data(), 1, bytes.size(), df); fclose(df); } }   // triage aid
         if (version == 2) {
             if (rc == CIF_DISALLOWED_VALUE && sc.key_hard) { label("refused-key"); break; }
-            // known finding F-TABLE-WRAP: a table entry's value is written without wrapping right after the colon; when it does not
-            // fit on the rest of the line cif_write gives up with CIF_OVERLENGTH_LINE.  Excluded (and counted) unless the case is strict.
-            // (a nested list / table whose opening bracket does not fit gives CIF_ERROR instead.)  Confirmed positively by detabled_ok().
-            if ((rc == CIF_OVERLENGTH_LINE || rc == CIF_ERROR) && sc.table_entry && !c.geti("strict") && detabled_ok(d, c)) { count_excluded("F-TABLE-WRAP"); label("excluded:F-TABLE-WRAP"); break; }
+            // (F-TABLE-WRAP, fixed: an unquoted number or a nested table that did not fit on the line after "key": made cif_write fail.)
             if (rc != CIF_OK) { msg = std::string("cif_write (CIF 2.0) returned ") + cm::code_name(rc) + " for a CIF within the guaranteed domain"; break; }
         } else {
             bool value_pb = sc.composite || sc.nlsemi, char_pb = sc.non11;
@@ -181,6 +164,23 @@ int main(int argc, char **argv) {
                 else { o.dialect = cp::CIF2; o.vo.prof = g::P_CIF2; o.vo.composites = false; }                        // non-1.1 characters
             }
             cm::Doc d = *g::doc(o);
+            if (WRITE_VERSION == 1 && o.dialect == cp::CIF11 && !o.vo.composites && *g::chance(25)) {
+                // exactly ONE inexpressible element in an otherwise pure CIF 1.1 document, at a generated place: a writer that checks names,
+                // codes and values one by one must not let a later, acceptable element mask the refusal of an earlier one
+                std::vector<ustr *> names, codes; std::vector<cm::Value *> vals;
+                std::function<void(cm::Container &)> collect = [&](cm::Container &k) {
+                    codes.push_back(&k.code);
+                    for (auto &l : k.loops) { for (auto &n : l.names) names.push_back(&n); for (auto &r : l.rows) for (auto &v : r) vals.push_back(&v); }
+                    for (auto &f : k.frames) collect(f);
+                };
+                for (auto &b : d.blocks) collect(b);
+                int what = *g::range(0, 9); size_t pick = (size_t) *g::range(0, 99999);
+                static const char16_t *BAD[] = {u"\u00E9", u"\u0394", u"\u00A0", u"\U0001D4B3"};
+                ustr bad = BAD[pick % 4];
+                if (what < 5 && !names.empty()) { ustr &n = *names[pick % names.size()]; n.insert(1 + (pick / 7) % n.size(), bad); label("single-defect:item-name"); }
+                else if (what < 7 && !codes.empty()) { ustr &k = *codes[pick % codes.size()]; k.insert((pick / 7) % (k.size() + 1), bad); label("single-defect:code"); }
+                else if (!vals.empty()) { cm::Value &v = *vals[pick % vals.size()]; if (what == 9) { v = cm::Value::list({cm::Value::chr(u"x")}); label("single-defect:composite-value"); } else { v = cm::Value::chr(ustr(u"a") + bad + u"b", true); label("single-defect:value-char"); } }
+            }
             CaseFile c; c.set("doc", cm::ser_plain(d)); c.seti("explicit2", *g::range(0, 1));
             VH_BEGIN(c);
             bool nt = false; size_t maxline = 0;
@@ -192,19 +192,6 @@ int main(int argc, char **argv) {
         });
     };
     e.replay = run_case;
-    e.classify = [](const CaseFile &c) {
-        cm::Doc d; if (!cm::parse_doc(c.get("doc"), d)) return std::string();
-        Scan sc; for (auto &b : d.blocks) scan_cont(b, sc, 0);
-        CaseFile c2 = c; c2.seti("strict", 1);
-        std::string m = run_case(c2);
-        // F-TABLE-WRAP: the value of a table entry cannot be wrapped onto a new line after "key:"; a scalar value that does not fit
-        // gives CIF_OVERLENGTH_LINE, a nested list / table whose opening bracket does not fit gives CIF_ERROR.  The classification is
-        // confirmed positively: the same document with every table rewritten as the list [key value key value ...] (same tokens, but
-        // free to wrap anywhere) must write and round-trip -- otherwise the failure is not the table-entry layout and is reported.
-        if (sc.table_entry && (m.find("returned CIF_OVERLENGTH_LINE") != std::string::npos || m.find("returned CIF_ERROR") != std::string::npos)) {
-            if (detabled_ok(d, c2)) return std::string("F-TABLE-WRAP");
-        }
-        return std::string();
-    };
+    e.classify = [](const CaseFile &) { return std::string(); };
     return engine_main(argc, argv, e);
 }
